@@ -213,6 +213,22 @@ def t_run_func(E):
                     raise PathEnd()
                 return aio.mk_awaitable('wrapped_in_run_func', inner=inner)
             return VStub('asyncio.' + what, fn)
+        prev_attr = Bn.get('__getattr_ext__')
+
+        def loop_attr(E_, obj, name, node):
+            if isinstance(obj, VVal) and obj.t.sort() == LoopS and name in ('call_soon_threadsafe', 'call_soon', 'call_later'):
+                # something handed to the loop to be done LATER: not done when _run_func returns (the next round may start,
+                # clear the flag and mark its first producer done before the deferred set() lands)
+                return VStub('loop.' + name, lambda E_, a, k: (st.setdefault('deferred', []).append(a), NONE)[1])
+            return prev_attr(E_, obj, name, node) if prev_attr else None
+        Bn['__getattr_ext__'] = loop_attr
+
+        class _SchedInRunFunc:
+            """_schedule_with_timeout(coro) = create_task(wait_for(coro, self.timeout)): around the wrapped call it is a
+            deadline of the buffer's own (and a spawned task)"""
+            def apply(self, E_, args, kwargs, node=None):
+                return deadline_of_its_own('wait_for').fn(E_, [args[1] if len(args) > 1 else None], {})
+        E.specs[MOD + '.' + CLS + '._schedule_with_timeout'] = _SchedInRunFunc()
         ns_ = Bn[('import', 'asyncio')]
         ns_.attrs['wait_for'] = deadline_of_its_own('wait_for')
         ns_.attrs['shield'] = deadline_of_its_own('shield')
@@ -446,6 +462,12 @@ def t_process_queue(E):
         def unpack(E_, v, node):
             if isinstance(v, Obj) and v.cls == 'GenList':
                 return [VStar(v)]
+            if isinstance(v, Obj) and v.cls == 'islice' and isinstance(v.fields.get('it'), Obj) and \
+                    v.fields['it'].cls == 'GenList':
+                E.oblige(Qn + '/load.every_pending_producer_of_the_pass_is_loaded', z3.BoolVal(False), props={'C03', 'C07', 'C08'},
+                         detail='gather(*islice(input_gens, n)): a pass holding more than n producers loads the first n only; '
+                                'the others were taken off the queue (and marked done) already and are dropped with the list')
+                raise PathEnd()
             return None
         Bn['__unpack_ext__'] = unpack
 
@@ -515,8 +537,10 @@ def t_process_queue(E):
                      props={'C03', 'C08'})
             if st.get('p0') is not None:
                 E.oblige(Qn + '/call.every_dequeued_producer_is_loaded_before_the_function_runs',
-                         z3.BoolVal(st.get('p0_state') == 'loaded'), props={'C03', 'C07'})
-                E.oblige(Qn + '/call.loaded_elements_are_offered', z3.Select(E.w['in_set'], st['x0']), props={'C03', 'C07'})
+                         z3.BoolVal(st.get('p0_state') == 'loaded'), props={'C03', 'C07', 'C08'},
+                         detail='C08 too: an argument taken off the queue and not loaded before the call is in no call -- not in '
+                                'this one and, the round ending with its success, in no later one')
+                E.oblige(Qn + '/call.loaded_elements_are_offered', z3.Select(E.w['in_set'], st['x0']), props={'C03', 'C07', 'C08'})
             E.oblige(Qn + '/call.function_runs_only_right_after_its_own_quiet_period_or_flush',
                      z3.BoolVal(bool(st['events']) and st['events'][-1] in ('getting:timeout', 'getting:flush')),
                      props={'C08'}, detail='every call (a retry too) is preceded by a timed read that expired or was '
@@ -1046,6 +1070,11 @@ def t_wait(E):
                 old = gdone['v']
                 gdone['v'] = E.fresh('getting_done', B)
                 E.assume(z3.Implies(old, gdone['v']))
+                # ... and when it takes an element it arms a NEW timed read and lowers the flush flag again: a flag raised
+                # before this yield may be down by the time the read is cancelled
+                fl = E.truth(o.fields['_flush_requested'])
+                fl = z3.BoolVal(fl) if isinstance(fl, bool) else fl
+                o.fields['_flush_requested'] = VBool(z3.And(fl, E.fresh('processing_task_did_not_re_arm_meanwhile', B)))
                 return (NONE,)
             if isinstance(v, Obj) and v.cls == 'Awaitable' and v.fields['kind'] == 'event_wait':
                 log.append(('event_wait',))
